@@ -17,13 +17,14 @@ package trie
 //@ func (*Trie).Insert
 //@   requires @C20 t != nil && allocated(t) && t != endMarker && markerOK() && minmaxOK(t)
 //@   modifies *
-//@   ensures  marker:: markerOK() && markerSame()
-//@   ensures  monotone:: validKept()
-//@   loop 1 invariant t != nil && allocated(t) && t != endMarker && markerOK() && markerSame()
+//@   ensures  @C20 marker:: markerOK() && markerSame()
+//@   ensures  @C20 monotone:: validKept()
+//@   loop 1 invariant @C20 t != nil && allocated(t) && t != endMarker && markerOK() && markerSame()
 //@   loop 1 invariant 0 <= rangeint_iter && rangeint_iter < len(word)
-//@   loop 1 invariant validKept()
+//@   loop 1 invariant @C20 validKept()
 //@   loop 1 decreases len(word) - rangeint_iter
-//@   loop 1 exit member:: t != nil && t.valid
+//@   loop 1 exit @C20 member:: t != nil && t.valid
+//@   safety C20
 //@   property C20
 
 //@ func (*Trie).Prefix
